@@ -202,7 +202,7 @@ func (s *suffixer) callSuffix(call *ssa.Call, res int, fn *ssa.Function, depth i
 }
 
 func C03(p *an.Prog, r *an.Report) {
-	r.Explanation = "S1: for every exported parser that returns a remainder, the remainder on every success return is shown to be derived from the input parameter only by suffix slicing x[lo:] (through phis, local cells and the remainders of callees, by a memoised must-analysis), i.e. it is a suffix of the input, so consumed bytes followed by the remainder are the input; a remainder that no success path ever assigns from the input is reported. S2: inside the closure of the parsers, the error result of every call to a library function that itself takes a []byte cursor must be used (tested, returned, wrapped or collected), never discarded; and every function outside package data that reads an embedded mapping is evaluated under three assumptions about the reader's error list — none, only the benign 'data exists beyond length of mapping' warning, some other error — and must succeed, succeed, and fail respectively, with its filter substring occurring in the message the reader produces. Independence from appended bytes and exact extents are value properties and are not decided. S3: the extent of the trailing signature is taken from the transient key type when offline keys are present. S4: arithmetic on wire lengths and counts in integer types narrower than 64 bits provably stays inside its type on every API path."
+	r.Explanation = "S1: for every exported parser that returns a remainder, the remainder on every success return is shown to be derived from the input parameter only by suffix slicing x[lo:] (through phis, local cells and the remainders of callees, by a memoised must-analysis), i.e. it is a suffix of the input, so consumed bytes followed by the remainder are the input; a remainder that no success path ever assigns from the input is reported. S2: inside the closure of the parsers, the error result of every call to a library function that itself takes a []byte cursor must be used (tested, returned, wrapped or collected), never discarded; and every function outside package data that reads an embedded mapping is evaluated under three assumptions about the reader's error list — none, only the benign 'data exists beyond length of mapping' warning, some other error — and must succeed, succeed, and fail respectively, with its filter substring occurring in the message the reader produces. Independence from appended bytes and exact extents are value properties and are not decided. S3: the extent of the trailing signature is taken from the transient key type when offline keys are present. S4: arithmetic on wire lengths and counts in integer types narrower than 64 bits provably stays inside its type on every API path. S5: where a data.Integer's Int() determines the remainder of some success return of a parser-closure function (a declared extent), every other success return whose non-nil remainder does not depend on it must be dominated by the Int()==0 arm of a branch."
 	r.Rule = "one obligation per parser with a remainder result (S1), per discarded-error call site (S2), four per embedded-mapping site"
 	r.Trusted = []string{"go/ssa"}
 	flow := an.NewFlow(p)
@@ -306,6 +306,9 @@ func C03(p *an.Prog, r *an.Report) {
 	c02SigTypeSource(p, r, "C03.S3")
 	ns := mappingSiteRule(p, r, "C03.S2")
 	r.Floor("embedded_mapping_sites", ns, 4)
+	// S5: a declared extent is honoured on every success path
+	n5 := declaredExtentRule(p, r, flow, fns)
+	r.Floor("declared_extents", n5, 1)
 	// S4: arithmetic on wire lengths and counts in narrow integer types cannot wrap
 	narrowArith(p, r, "C03.S4", nil)
 }
